@@ -91,7 +91,7 @@ def normalize_2x3(S):
     _normalize_body(S, (2, 3))
 
 
-@obligation('C18.normalize.3x4', functions=[IP + 'normalize', 'holopy.core.metadata.copy_metadata'], tier='thorough',
+@obligation('C18.normalize.3x4', functions=[IP + 'normalize', 'holopy.core.metadata.copy_metadata'], tier='thorough', wall_s=420,
             bounds='3x4 image, all pixel values symbolic with non-zero sum; symbolic rescaling factor c>0')
 def normalize_3x4(S):
     _normalize_body(S, (3, 4))
